@@ -1,0 +1,24 @@
+//go:build verif
+
+// Contracts for package gpkg, read by the verification-condition generator in /verif (gvc).
+// This file contains comments only; it is compiled only with the build tag "verif" and adds no code.
+package gpkg
+
+// C12, paging clause only: whatever the page size (> 0) and however many features arrive before the channel is
+// closed, WriteFeatures hands every received feature to writeFeatures exactly once and in order: the concatenation of
+// the pages passed to writeFeatures (ghost list written) equals the sequence received (ghost list recv_inFeatures).
+// Everything behind writeFeatures (transactions, rows, spatial index, extent) is outside the verified subset.
+//@ func (*TargetGeopackage).writeFeatures
+//@   trusted "database side (database/sql, SQLite): one transaction per page; outside the verified subset"
+//@   maypanic
+//@   logs features to written
+//@ func (*TargetGeopackage).WriteFeatures
+//@   requires target.pagesize > 0
+//@   ghostlist written Sl_Iface
+//@   maypanic
+//@   loop features
+//@     invariant len(recv_inFeatures) == len(written) + len(features)
+//@     invariant forall(i Int, 0 <= i && i < len(written) ==> recv_inFeatures[i] == written[i], trigger(written[i]))
+//@     invariant forall(i Int, len(written) <= i && i < len(recv_inFeatures) ==> recv_inFeatures[i] == features[i - len(written)], trigger(recv_inFeatures[i]))
+//@   ensures[C12] len(written) == len(recv_inFeatures)
+//@   ensures[C12] forall(i Int, 0 <= i && i < len(written) ==> written[i] == recv_inFeatures[i], trigger(written[i]))
